@@ -3,6 +3,8 @@ CONSTANTS
   NV = 2
   StabV = {}
   HasHf = FALSE
+  Cmds = {}
+  Rewrites = FALSE
   NP = 2
   UseQueue = TRUE
   SkipQueue = FALSE
